@@ -17,6 +17,8 @@ P1 = b"\x02" + b"\x11" * 32; P2 = b"\x03" + b"\x12" * 32; K = bytes.fromhex("027
 X1 = b"\x15" * 32; X2 = b"\x16" * 32
 PAIRSETS = [[], [(S1, P1)], [(S1, P1), (S2, P2)], [(S3, X1)], [(S3, X1), (S1, P1)], [(S1, P1), (S1, P2)], [(b"", P1)],
             # one key listed with several signatures, in both orders
+            # long items (the option's items are expressions of any length)
+            [(b"\x30" + b"\x07" * 129, P1)], [(S1, b"\x04" + b"\x21" * 130)], [(b"\x05" * 255, P1), (b"\x05" * 254 + b"\x06", P2)], [(b"\x07" * 400, b"\x02" + b"\x08" * 300)],
             [(S1, P1), (S2, P1)], [(S2, P1), (S1, P1)], [(S1, P1), (S2, P1), (S3, P1)], [(S1, P1), (S2, P1), (S1, P2), (S2, P2)]]
 CMP = drivers.CMP_C01 + ["weight"]
 
@@ -45,6 +47,7 @@ def make_jobs(chk):
     n = 0
     sigs = [b"", S1, S2, S3]
     keys = [P1, P2, K, X1]
+    longsigs = {b"\x30" + b"\x07" * 129: P1, b"\x05" * 255: P1, b"\x05" * 254 + b"\x06": P2, b"\x07" * 400: b"\x02" + b"\x08" * 300}
     sp = gen_sig.Spend(rng, 1, 1, 0, spk=b"\x51\x20" + b"\x11" * 32, witness=True)
     for name, script, mk in shapes():
         for pairs in PAIRSETS:
@@ -53,6 +56,10 @@ def make_jobs(chk):
                 combos = [(a, b_, sigs[0], keys[0]) for a, b_ in itertools.product(sigs, keys)]
             if quick and len(combos) > 24:
                 combos = rng.sample(combos, 24)
+            # the long listed items themselves, against their own and against another key
+            for sg_, k_ in pairs:
+                if len(sg_) > 100 or len(k_) > 100:
+                    combos += [(sg_, k_, sigs[0], keys[0]), (sg_, P2, sigs[0], keys[0]), (S1, k_, sigs[0], keys[0])]
             for sg, k, sg2, k2 in combos:
                 for sv in ("BASE", "WITNESS_V0", "TAPSCRIPT"):
                     fl = rng.choice([[], STANDARD, ["STRICTENC", "NULLFAIL"], ["NULLDUMMY", "DERSIG"]])
@@ -88,9 +95,31 @@ def make_jobs(chk):
                 bad = sig[:9] + bytes([sig[9] ^ 1]) + sig[10:]
                 c.tx.witness[0][0] = bad
             for pairs in ([(bad, key)], [(bad, P1)], [], [(S1, P1), (bad, key)]):
+                pass
+            # ... and the VALID spend with its real signature also listed for some other key: the real check must still take place
+            cv = gen_spend.SpendCase(rng, typ, "valid", 1, 0, 0)
+            if typ == "p2pkh":
+                realsig = list(btc.script_iter(cv.tx.vin[0].script_sig))[0][1]
+            else:
+                realsig = cv.tx.witness[0][0]
+            for pairs2 in ([(realsig, P1)], [(realsig, P2), (S1, P1)]):
+                n += 1
+                jobs.append(SessionJob("pv%d:%s" % (n, typ), b"", [], STANDARD, "BASE", cmds=["steps"], cmp=[x for x in gen_spend.CMP_SPEND if x not in ("verdict", "digest")],
+                                       auto=True, pretend=pairs2, txctx={"tx": cv.tx.hex(), "txin": cv.funding.hex(), "select": -1}))
+            for pairs in ([(bad, key)], [(bad, P1)], [], [(S1, P1), (bad, key)]):
                 n += 1
                 jobs.append(SessionJob("pa%d:%s:%d" % (n, typ, len(pairs)), b"", [], STANDARD, "BASE", cmds=["steps"], cmp=[x for x in gen_spend.CMP_SPEND if x not in ("verdict", "digest")],
                                        auto=True, pretend=pairs, txctx={"tx": c.tx.hex(), "txin": c.funding.hex(), "select": -1}))
+    for typ in ("multisig", "p2sh", "p2wsh"):
+        for rep in range(2 if quick else 12):
+            cv = gen_spend.SpendCase(rng, typ, "valid", 1, 0, 0)
+            items = [t[1] for t in btc.script_iter(cv.tx.vin[0].script_sig)] if typ != "p2wsh" else list(cv.tx.witness[0])
+            realsigs = [x for x in items if x and len(x) > 60 and x[0] == 0x30]
+            if not realsigs: continue
+            for pairs2 in ([(realsigs[0], P1)], [(realsigs[-1], b"\xbb")], [(S1, P1)]):
+                n += 1
+                jobs.append(SessionJob("pm%d:%s" % (n, typ), b"", [], STANDARD, "BASE", cmds=["steps"], cmp=[x for x in gen_spend.CMP_SPEND if x not in ("verdict", "digest")],
+                                       auto=True, pretend=pairs2, txctx={"tx": cv.tx.hex(), "txin": cv.funding.hex(), "select": -1}))
     return jobs
 
 
